@@ -240,7 +240,7 @@ class Gen:
         if ty in ('int', 'Decimal'):
             prods.append('neg')
         if ty == 'bool':
-            prods += ['not', 'isnull', 'and', 'or', 'between', 'in'] + ([] if getattr(self, 'scalar_only', False) else ['insub'])
+            prods += ['not', 'isnull', 'and', 'or', 'between', 'in', 'insub']
         if ty == 'object' and mode == 'row':
             prods += ['subscript', 'metafn']
         if mode == 'row':
@@ -320,7 +320,7 @@ class Gen:
                      tags=self.tags('op:In', a.tags))
         if p == 'insub':
             a = self.anyexpr(tbl, d, mode)
-            sub = rng.choice(['SELECT k FROM #u', 'SELECT z FROM #u WHERE k > 1', 'SELECT account FROM #postings',
+            sub = rng.choice(self.in_subqueries) if getattr(self, 'in_subqueries', None) else rng.choice(['SELECT k FROM #u', 'SELECT z FROM #u WHERE k > 1', 'SELECT account FROM #postings',
                               'SELECT a FROM #u', 'SELECT DISTINCT k + 1 FROM #u', 'SELECT max(k) FROM #u',
                               'SELECT k FROM #u GROUP BY k, z ORDER BY z'])
             return X(f'({a.text} {rng.choice(["IN", "NOT IN"])} ({sub}))', 'bool', agg=a.agg, col=a.col,
